@@ -128,7 +128,9 @@ THRok(r) ==
 TRUNCok(r) == /\ ~r.err /\ r.res = 0
               /\ SameVals(r.o, TruncateFOV(Arr(r.dlo, r.dn, r.d), r.rim, r.strict).v)
 (* ---- ChainedDataProcessor: "calls 2 DataProcessors in sequence" ----------- *)
-CHAINok(r) == /\ ~r.err /\ r.res = 0
+\* r.seq: the recorded result of applying the same processors one after the other by hand
+ChainComposes(r) == ~r.err /\ r.res = 0 /\ Len(r.o) = Size(r.dn) /\ SameVals(r.o, r.seq)
+CHAINok(r) == /\ ChainComposes(r)
               /\ SameVals(r.o, ApplyChain(r.stages, Arr(r.dlo, r.dn, r.d)).v)
 (* ---- in_place_apply_array_function_on_1st_index / apply_array_function_on_1st_index ---- *)
 \* "Apply a function object on all possible 1d arrays extracted by keeping all indices fixed, except the first one"
@@ -276,7 +278,8 @@ Classify(r) ==
               \/ r.shape = 2 /\ r.stages[1].t = "none" /\ r.stages[2].t = "none")
           /\ (\A q \in 1..Len(r.o) : r.o[q] = r.o[1]) /\ r.o[1] # 0 /\ r.o[1] % 777 = 0 THEN "C19-chain-empty"
   \* a chain that contains a median stage with a non-zero radius inherits C19-median-border
-  ELSE IF r.e = "CHAIN" /\ ~r.err /\ r.res = 0 /\ (\E i \in 1..Len(r.stages) : r.stages[i].t = "median" /\ r.stages[i].r # <<0, 0, 0>>) THEN "C19-median-border"
+  \* (the composition itself must be right: the chain gives what the stages give one after the other)
+  ELSE IF r.e = "CHAIN" /\ ChainComposes(r) /\ (\E i \in 1..Len(r.stages) : r.stages[i].t = "median" /\ r.stages[i].r # <<0, 0, 0>>) THEN "C19-median-border"
   ELSE IF r.e = "SEP" /\ SepParseEmpty(r) THEN "C19-sepparse-empty"
   ELSE IF r.e = "CN" /\ TrivialND(r) THEN "C19-trivialnd"
   ELSE IF r.e = "MEAN" /\ MetzTrunc(r) THEN "C19-metztrunc"
